@@ -352,6 +352,11 @@ class H2Protocol:
                     await self.streams[event.stream_id].handle(
                         Body(stream_id=event.stream_id, data=event.data)
                     )
+                    if getattr(self.streams.get(event.stream_id), "closed", False) is True:
+                        # Answered by the stream itself (data before the
+                        # handshake was accepted) which it does not report.
+                        await self._close_stream(event.stream_id)
+                        await self.send(Updated(idle=self.idle))
                 self.connection.acknowledge_received_data(
                     event.flow_controlled_length, event.stream_id
                 )
@@ -471,6 +476,12 @@ class H2Protocol:
         )
         self.keep_alive_requests += 1
         await self.context.mark_request()
+        stream = self.streams.get(request.stream_id)
+        if getattr(stream, "closed", False) is True:
+            # The stream has answered the request by itself (e.g. an
+            # invalid server name) and closed, which it does not report.
+            await self._close_stream(request.stream_id)
+            await self.send(Updated(idle=self.idle))
 
     async def _create_server_push(
         self, stream_id: int, path: bytes, headers: List[Tuple[bytes, bytes]]
